@@ -639,8 +639,14 @@ func (s *sys) Invariant(_ string, ev string) []vxstate.Finding {
 		if r.panicked {
 			add("panic", site, fmt.Sprintf("handler panicked (recovered by processEvent, state lost) for %s %s", r.ev.Type, r.ev.Key))
 		}
-		// no handler may move a shard that exists before and after it
+		// no handler may move a shard that exists before and after it. With lagging watchers the manager's view may be
+		// REPLACED by the assignment of a newer incarnation of the database (drop + create while an old
+		// ShardAssignmentChanged is still in flight), which is not a moved shard: there the clause is evaluated for all
+		// other handlers, and for the assignment itself on the stored assignment (grow-keeps-existing below).
 		for _, d := range sortedKeys(r.mgrBefore) {
+			if s.cfg.Lag > 0 && r.ev.Type == discovery.ShardAssignmentChanged {
+				break
+			}
 			if after, ok := r.mgrAfter[d]; ok {
 				keep := shardMap{}
 				for id, l := range r.mgrBefore[d] {
